@@ -1,9 +1,9 @@
 //! C11, sl-verifiable-enc: `from_bytes`, `to_bytes`, `verify`, `decrypt` on arbitrary byte strings, both curves.
 //! Lines: `c11 venc <k|e> parse <bytes>` | `c11 venc <k|e> verify|decrypt <bytes> <Q> <keyid> <label>`
 use super::{class_of, hexw, unhexw, Cx, ED_L, SECP_Q, be_minus_one};
-use crate::c09::{self, Cv};
+use crate::c09::Cv;
 use crate::oracle;
-use elliptic_curve::{ff::{Field, PrimeField}, group::{Group, GroupEncoding}};
+use elliptic_curve::ff::{Field, PrimeField};
 use rand::{Rng, RngCore};
 use rand_chacha::ChaCha20Rng;
 use sl_verifiable_enc::{rsa::traits::PublicKeyParts, RsaError, VerifiableRsaEncryption};
